@@ -12,6 +12,7 @@ _core_check.source_def(ctx)      # a second update finds the deferred ids resolv
 _core_check.source_phase(ctx)    # a fresh compiler per update; the phases in the model's order (Properties_phase_source)
 _core_check.source_gv(ctx)       # dispatch_data is resized, not cleared: what an update does not write is stale (Properties_gv_source)
 _core_check.source_tab(ctx)      # "assigning next" runs in every update (Properties_tab_source: C03_source_next)
+_core_check.source_update(ctx)   # every stage computes its component of compile_with stale R from R and `stale` alone (Properties_update_source)
 res = coresuite.history_suite(ctx.tier, ctx.seed)
 cov = coresuite.summarize_groups(ctx, res, 'updates of load/unload histories')
 vlib.finish(ctx, cov, assumptions=['harness H1 keeps one process alive across all cases: the policies\' persistent state (dispatch_data, v-table pointer vectors, hash parameters, static v-table pointers of removed classes) leaks from case to case on purpose'])
